@@ -83,7 +83,8 @@ def plan_c03(pid, rng, tier):
     last = t
     for i, v in enumerate(victims):
         at = t + i * rng.choice([137, f["pi"] * 3, f["pi"] * f["sm"]])   # possibly inside the first one's suspicion window
-        ev.append({"at": at, "kind": "crash", "node": v})
+        # half of the crashes take the whole host away: connection attempts go unanswered instead of being refused
+        ev.append({"at": at, "kind": "crash", "node": v, "host": rng.random() < 0.5})
         last = max(last, at)
     plan["events"] = ev
     plan["endAt"] = last + 2 * detect_bound(fam, n, 1 + jit) + 5000
